@@ -178,4 +178,5 @@ func TestC01(t *testing.T) {
 func TestC01Large(t *testing.T) {
 	runHeldBack(t, hC01, "TestC01", propC01)
 	runLongEvents(t, hC01, "TestC01", propC01)
+	runSeam(t, hC01, "TestC01", propC01)
 }
